@@ -11,7 +11,7 @@ and replaying history + one event.  A property supplies a *Sim* class:
     sim.close()
     sim.nontrivial() -> bool       # optional
 
-A history is cut at its first violation.
+A history is cut at its first violation (unless the violation dict carries "continue": True - side-branch verdicts).
 """
 import hashlib
 
@@ -43,7 +43,13 @@ def _expand(item):
             if v is not None:
                 v = dict(v)
                 v.setdefault("replay", {"hist": list(hist) + [ev]})
-                out.append((ev, None, v, False))
+                if v.pop("continue", False):
+                    # the oracle judged a hypothetical side branch (e.g. a kill snapshot) and the live run is intact:
+                    # report it AND keep exploring behind this event (an open finding must not hide what follows)
+                    nt = s.nontrivial() if hasattr(s, "nontrivial") else True
+                    out.append((ev, _digest(s.key()), v, nt))
+                else:
+                    out.append((ev, None, v, False))
             else:
                 nt = s.nontrivial() if hasattr(s, "nontrivial") else True
                 out.append((ev, _digest(s.key()), None, nt))
@@ -104,7 +110,8 @@ def _levels(ctx, Sim, seen, frontier, max_depth, max_states, label, transitions,
                 transitions += 1
                 if v is not None:
                     ctx.merge_violations([v])
-                    continue
+                    if k is None:
+                        continue
                 if nt:
                     nontriv += 1
                 if k not in seen:
